@@ -67,6 +67,8 @@ pub fn key_ty(depth: u32) -> BoxedStrategy<Ty> {
 }
 
 pub const ARRAY_LENS: [usize; 8] = [0, 1, 2, 3, 16, 17, 32, 33];
+/// byte arrays also around the sizes where the length prefix changes width
+pub const BYTE_ARRAY_LENS: [usize; 12] = [0, 1, 2, 3, 16, 17, 32, 33, 127, 128, 255, 256];
 
 /// every built-in type constructor at the root, recursively up to `depth`
 pub fn any_ty(depth: u32) -> BoxedStrategy<Ty> {
@@ -83,7 +85,7 @@ pub fn any_ty(depth: u32) -> BoxedStrategy<Ty> {
         3 => proptest::collection::vec(inner.clone(), 1..=8).prop_map(Ty::Tuple),
         3 => inner.clone().prop_map(|t| Ty::Vec(arc(t))),
         2 => (inner.clone(), select(ARRAY_LENS.to_vec())).prop_map(|(t, n)| Ty::Array(arc(t), n)),
-        1 => select(ARRAY_LENS.to_vec()).prop_map(|n| Ty::Array(arc(Ty::U8), n)),
+        1 => select(BYTE_ARRAY_LENS.to_vec()).prop_map(|n| Ty::Array(arc(Ty::U8), n)),
         1 => key.clone().prop_map(|t| Ty::LinkedList(arc(t))),
         1 => inner.clone().prop_map(|t| Ty::LinkedList(arc(t))),
         2 => key.clone().prop_map(|t| Ty::HashSet(arc(t))),
@@ -516,6 +518,8 @@ pub fn rooted_tys(depth: u32) -> Vec<(String, BoxedStrategy<Ty>)> {
     out.push(("Vec<i8|bool|()>".into(), select(vec![Ty::I8, Ty::Bool, Ty::Unit]).prop_map(|t| Ty::Vec(arc(t))).boxed()));
     for n in ARRAY_LENS {
         out.push((format!("[T;{n}]"), inner.clone().prop_map(move |t| Ty::Array(arc(t), n)).boxed()));
+    }
+    for n in BYTE_ARRAY_LENS {
         out.push((format!("[u8;{n}]"), Just(Ty::Array(arc(Ty::U8), n)).boxed()));
     }
     out.push(("[i8|bool|();N]".into(), (select(vec![Ty::I8, Ty::Bool, Ty::Unit]), select(ARRAY_LENS.to_vec())).prop_map(|(t, n)| Ty::Array(arc(t), n)).boxed()));
